@@ -4,14 +4,14 @@
 (* DigCats.tla into its scratch directory.                                                *)
 Trace == <<
   [ev |-> "new", ci |-> 1, opt |-> [defer |-> FALSE, recover |-> TRUE, dry |-> FALSE],
-   op |-> "", f |-> "", s |-> "", plan |-> <<>>, v |-> "", rf |-> "", rn |-> 0, mk |-> <<>>, log |-> <<>>, na |-> FALSE],
+   op |-> "", f |-> "", s |-> "", plan |-> <<>>, v |-> "", rf |-> "", rn |-> 0, mk |-> <<>>, log |-> <<>>, na |-> FALSE, hs |-> FALSE, sc |-> <<>>],
   [ev |-> "op", ci |-> 0, opt |-> [defer |-> FALSE, recover |-> TRUE, dry |-> FALSE],
-   op |-> "provide", f |-> "c1", s |-> "r", plan |-> <<>>, v |-> "ok", rf |-> "", rn |-> 0, mk |-> <<>>, log |-> <<>>, na |-> FALSE],
+   op |-> "provide", f |-> "c1", s |-> "r", plan |-> <<>>, v |-> "ok", rf |-> "", rn |-> 0, mk |-> <<>>, log |-> <<>>, na |-> FALSE, hs |-> FALSE, sc |-> <<>>],
   [ev |-> "op", ci |-> 0, opt |-> [defer |-> FALSE, recover |-> TRUE, dry |-> FALSE],
    op |-> "invoke", f |-> "i1", s |-> "r", plan |-> <<>>, v |-> "ok", rf |-> "", rn |-> 0, mk |-> <<>>,
    log |-> <<[t |-> "exec", f |-> "c1", n |-> 1, o |-> "ok", args |-> <<>>, e |-> "", rt |-> 0],
              [t |-> "exec", f |-> "i1", n |-> 1, o |-> "ok",
               args |-> << <<[f |-> "", n |-> 0, i |-> 0, e |-> 0]>>, <<>>, <<[f |-> "c1", n |-> 1, i |-> 1, e |-> 0]>> >>,
-              e |-> "", rt |-> 0]>>, na |-> FALSE]
+              e |-> "", rt |-> 0]>>, na |-> FALSE, hs |-> FALSE, sc |-> <<>>]
 >>
 =============================================================================
